@@ -76,6 +76,8 @@ class ClassSpec:
             raise ValueError(s)
         self.attrs = [AttrSpec(a) for a in parts[1:] if a]
         self.by_name = {a.name: a for a in self.attrs}
+        if len(self.by_name) != len(self.attrs) or "d" in self.by_name:
+            raise ValueError("duplicate / reserved attribute name: " + s)
 
 
 def parse_case(case):
